@@ -775,6 +775,14 @@ func (ed Editor) JustifyOpts(width int, opts Options) Editor {
 func (ed Editor) Overtype(charPos int, text string) Editor {
 	inboundText := gem.New(text)
 
+	// convert charPos to an actual character index before adding to it; the
+	// raw value may be negative (relative to the end) or End
+	count := ed.CharCount()
+	if charPos == End {
+		charPos = count
+	}
+	charPos, _ = util.RangeToIndexes(count, charPos, charPos)
+
 	before := ed.CharsTo(charPos).Text
 	after := ed.CharsFrom(charPos + inboundText.Len()).Text
 
